@@ -1,0 +1,416 @@
+//! Verification hooks (cargo feature `verif`). Everything here is inert unless a
+//! harness installs a monitor, a fuel budget or an order oracle on the current
+//! thread; with the feature off this module is not compiled at all.
+use crate::{
+    ExecError, Interpreter,
+    function::{Body, Function},
+    instruction::{Exec, ExecResult, ExecStop, Instruction, InstructionWithStr},
+    variable::{ReturnType, Type, Variable},
+};
+use std::{
+    cell::{Cell, RefCell},
+    collections::{HashMap, HashSet},
+    panic::{AssertUnwindSafe, catch_unwind, resume_unwind},
+    sync::Arc,
+};
+
+/// Payload used to unwind out of a run whose fuel or call depth is exhausted.
+#[derive(Debug, Clone, Copy, PartialEq, Eq)]
+pub enum Exhausted {
+    Fuel,
+    Depth,
+}
+
+/// Outcome of one observed `Instruction::exec`.
+pub enum NodeResult<'a> {
+    Value(&'a Variable),
+    Break,
+    Continue,
+    Return(&'a Variable),
+    Error(&'a ExecError),
+}
+
+pub enum Event<'a> {
+    /// An instruction of kind `kind` whose static type is `static_type`
+    /// (`None` when `return_type()` panicked) finished with `result`.
+    Node {
+        kind: String,
+        static_type: Option<Type>,
+        result: NodeResult<'a>,
+    },
+    /// A function body finished. `declared` is the function's declared return type.
+    FnExit {
+        ident: Option<&'a str>,
+        native: bool,
+        declared: &'a Type,
+        result: Result<&'a Variable, &'a ExecError>,
+    },
+}
+
+type Monitor = Box<dyn FnMut(Event<'_>)>;
+
+#[derive(Default)]
+struct Oracle {
+    /// choices[i] = index of the permutation used for the i-th fresh instance
+    choices: Vec<usize>,
+    /// seen[i] = number of members of the i-th fresh instance
+    seen: Vec<usize>,
+    by_instance: HashMap<(usize, usize), usize>,
+    keep_sets: Vec<Arc<HashSet<Type>>>,
+    keep_maps: Vec<Arc<HashMap<Arc<str>, Type>>>,
+}
+
+thread_local! {
+    static BYPASS: Cell<bool> = const { Cell::new(false) };
+    static FUEL: Cell<Option<u64>> = const { Cell::new(None) };
+    static DEPTH: Cell<u32> = const { Cell::new(0) };
+    static MAX_DEPTH: Cell<u32> = const { Cell::new(u32::MAX) };
+    static HELPER_DEPTH: Cell<u32> = const { Cell::new(0) };
+    static MONITOR: RefCell<Option<Monitor>> = const { RefCell::new(None) };
+    /// true = active frame, false = suspended (placeholder-typed helper body)
+    static FRAMES: RefCell<Vec<bool>> = const { RefCell::new(Vec::new()) };
+    static HELPER_BODIES: RefCell<HashMap<usize, Arc<[InstructionWithStr]>>> = RefCell::new(HashMap::new());
+    static ORACLE: RefCell<Option<Oracle>> = const { RefCell::new(None) };
+}
+
+// ---------------------------------------------------------------- control API
+
+/// Installs (or removes) the monitor of the current thread and resets all
+/// per-run monitor state.
+pub fn set_monitor(monitor: Option<Monitor>) {
+    MONITOR.with(|m| *m.borrow_mut() = monitor);
+    reset_run_state();
+}
+
+/// Clears frames, helper registrations and the bypass flag (call between runs,
+/// in particular after a run that ended by unwinding).
+pub fn reset_run_state() {
+    BYPASS.with(|b| b.set(false));
+    DEPTH.with(|d| d.set(0));
+    HELPER_DEPTH.with(|d| d.set(0));
+    FRAMES.with(|f| f.borrow_mut().clear());
+    HELPER_BODIES.with(|h| h.borrow_mut().clear());
+}
+
+/// `None` disables the budget. The budget is decremented by every loop
+/// iteration and every function call.
+pub fn set_fuel(fuel: Option<u64>, max_depth: Option<u32>) {
+    FUEL.with(|f| f.set(fuel));
+    MAX_DEPTH.with(|d| d.set(max_depth.unwrap_or(u32::MAX)));
+    DEPTH.with(|d| d.set(0));
+}
+
+pub fn fuel_left() -> Option<u64> {
+    FUEL.with(Cell::get)
+}
+
+/// Installs an order oracle with the given choice vector (missing entries = 0,
+/// i.e. canonical order).
+pub fn oracle_install(choices: Vec<usize>) {
+    ORACLE.with(|o| {
+        *o.borrow_mut() = Some(Oracle {
+            choices,
+            ..Oracle::default()
+        })
+    });
+}
+
+/// Removes the oracle and returns the sizes of the instances it was asked about,
+/// in order of first sight.
+pub fn oracle_take() -> Vec<usize> {
+    ORACLE.with(|o| o.borrow_mut().take().map_or_else(Vec::new, |o| o.seen))
+}
+
+// ---------------------------------------------------------------------- fuel
+
+pub(crate) fn tick() {
+    FUEL.with(|f| {
+        if let Some(left) = f.get() {
+            if left == 0 {
+                resume_unwind(Box::new(Exhausted::Fuel));
+            }
+            f.set(Some(left - 1));
+        }
+    });
+}
+
+pub(crate) struct DepthGuard;
+
+impl Drop for DepthGuard {
+    fn drop(&mut self) {
+        DEPTH.with(|d| d.set(d.get().saturating_sub(1)));
+    }
+}
+
+fn enter_depth() -> DepthGuard {
+    DEPTH.with(|d| {
+        let depth = d.get() + 1;
+        d.set(depth);
+        if depth > MAX_DEPTH.with(Cell::get) {
+            d.set(depth - 1);
+            resume_unwind(Box::new(Exhausted::Depth));
+        }
+    });
+    DepthGuard
+}
+
+// ------------------------------------------------------------------- monitor
+
+pub(crate) fn take_bypass() -> bool {
+    BYPASS.with(|b| b.replace(false))
+}
+
+fn monitor_installed() -> bool {
+    MONITOR.with(|m| m.borrow().is_some())
+}
+
+fn judging() -> bool {
+    HELPER_DEPTH.with(Cell::get) == 0 && FRAMES.with(|f| f.borrow().last().copied().unwrap_or(true))
+}
+
+fn emit(event: Event<'_>) {
+    // the monitor is taken out while it runs so that a re-entrant exec from
+    // inside the callback cannot observe a borrowed cell
+    let monitor = MONITOR.with(|m| m.borrow_mut().take());
+    if let Some(mut monitor) = monitor {
+        monitor(event);
+        MONITOR.with(|m| {
+            let mut slot = m.borrow_mut();
+            if slot.is_none() {
+                *slot = Some(monitor);
+            }
+        });
+    }
+}
+
+fn kind_name(ins: &Instruction) -> String {
+    match ins {
+        Instruction::AnonymousFunction(_) => "AnonymousFunction".into(),
+        Instruction::Array(_) => "Array".into(),
+        Instruction::ArrayRepeat(_) => "ArrayRepeat".into(),
+        Instruction::Block(_) => "Block".into(),
+        Instruction::Break => "Break".into(),
+        Instruction::Continue => "Continue".into(),
+        Instruction::DestructTuple(_) => "DestructTuple".into(),
+        Instruction::FieldAccess(_) => "FieldAccess".into(),
+        Instruction::FunctionDeclaration(_) => "FunctionDeclaration".into(),
+        Instruction::IfElse(_) => "IfElse".into(),
+        Instruction::LocalVariable(..) => "LocalVariable".into(),
+        Instruction::Loop(_) => "Loop".into(),
+        Instruction::Match(_) => "Match".into(),
+        Instruction::Mut(_) => "Mut".into(),
+        Instruction::Reduce(_) => "Reduce".into(),
+        Instruction::Set(_) => "Set".into(),
+        Instruction::SetIfElse(_) => "SetIfElse".into(),
+        Instruction::Slicing(_) => "Slicing".into(),
+        Instruction::Struct(_) => "Struct".into(),
+        Instruction::Tuple(_) => "Tuple".into(),
+        Instruction::TupleAccess(_) => "TupleAccess".into(),
+        Instruction::TypeFilter(_) => "TypeFilter".into(),
+        Instruction::Variable(_) => "Variable".into(),
+        Instruction::BinOperation(op) => format!("BinOperation({:?})", op.op),
+        Instruction::UnaryOperation(op) => format!("UnaryOperation({:?})", op.op),
+    }
+}
+
+pub(crate) fn observed_exec(ins: &Instruction, interpreter: &mut Interpreter) -> ExecResult {
+    BYPASS.with(|b| b.set(true));
+    let result = ins.exec(interpreter);
+    if monitor_installed() && judging() {
+        let static_type = catch_unwind(AssertUnwindSafe(|| ins.return_type())).ok();
+        let node_result = match &result {
+            Ok(var) => NodeResult::Value(var),
+            Err(ExecStop::Break) => NodeResult::Break,
+            Err(ExecStop::Continue) => NodeResult::Continue,
+            Err(ExecStop::Return(var)) => NodeResult::Return(var),
+            Err(ExecStop::Error(err)) => NodeResult::Error(err),
+        };
+        emit(Event::Node {
+            kind: kind_name(ins),
+            static_type,
+            result: node_result,
+        });
+    }
+    result
+}
+
+struct FrameGuard;
+
+impl Drop for FrameGuard {
+    fn drop(&mut self) {
+        FRAMES.with(|f| {
+            f.borrow_mut().pop();
+        });
+    }
+}
+
+pub(crate) fn observed_function_exec(
+    function: &Function,
+    interpreter: &mut Interpreter,
+) -> Result<Variable, ExecError> {
+    tick();
+    let _depth = enter_depth();
+    let (active, native) = match &function.body {
+        Body::Lang(body) => {
+            let key = Arc::as_ptr(body) as *const u8 as usize;
+            let helper = HELPER_BODIES.with(|h| h.borrow().contains_key(&key));
+            (!helper && HELPER_DEPTH.with(Cell::get) == 0, false)
+        }
+        Body::Native(_) => (HELPER_DEPTH.with(Cell::get) == 0 && judging(), true),
+    };
+    FRAMES.with(|f| f.borrow_mut().push(active));
+    let _frame = FrameGuard;
+    BYPASS.with(|b| b.set(true));
+    let result = function.exec(interpreter);
+    if active && monitor_installed() {
+        emit(Event::FnExit {
+            ident: function.ident.as_deref(),
+            native,
+            declared: &function.return_type,
+            result: result.as_ref(),
+        });
+    }
+    result
+}
+
+pub(crate) struct HelperScope;
+
+impl Drop for HelperScope {
+    fn drop(&mut self) {
+        HELPER_DEPTH.with(|d| d.set(d.get().saturating_sub(1)));
+    }
+}
+
+/// Marks the dynamic extent in which one of the placeholder-typed helper
+/// closures behind `@`, `?` and `~` builds its result closure.
+pub(crate) fn helper_scope() -> HelperScope {
+    HELPER_DEPTH.with(|d| d.set(d.get() + 1));
+    HelperScope
+}
+
+/// Called when a closure value is created; inside a helper scope its body is
+/// remembered so that running it later is not judged against placeholder types.
+pub(crate) fn closure_created(body: &Arc<[InstructionWithStr]>) {
+    if HELPER_DEPTH.with(Cell::get) > 0 {
+        let key = Arc::as_ptr(body) as *const u8 as usize;
+        HELPER_BODIES.with(|h| {
+            h.borrow_mut().insert(key, body.clone());
+        });
+    }
+}
+
+// -------------------------------------------------------------- order oracle
+
+/// Canonical structural key of a type, computed without consulting the oracle.
+pub fn canon_key(var_type: &Type) -> String {
+    match var_type {
+        Type::Bool => "bool".into(),
+        Type::Int => "int".into(),
+        Type::Float => "float".into(),
+        Type::String => "string".into(),
+        Type::Void => "()".into(),
+        Type::Any => "any".into(),
+        Type::Never => "!".into(),
+        Type::Function(function) => format!(
+            "({})->({})",
+            function
+                .params
+                .iter()
+                .map(canon_key)
+                .collect::<Vec<_>>()
+                .join(","),
+            canon_key(&function.return_type)
+        ),
+        Type::Array(element) => format!("[{}]", canon_key(element)),
+        Type::Tuple(types) => format!(
+            "({},)",
+            types.iter().map(canon_key).collect::<Vec<_>>().join(",")
+        ),
+        Type::Mut(element) => format!("mut({})", canon_key(element)),
+        Type::Multi(multi) => {
+            let mut keys: Vec<String> = multi.0.iter().map(canon_key).collect();
+            keys.sort();
+            format!("<{}>", keys.join("|"))
+        }
+        Type::Struct(struct_type) => {
+            let mut keys: Vec<String> = struct_type
+                .0
+                .iter()
+                .map(|(key, value)| format!("{key}:{}", canon_key(value)))
+                .collect();
+            keys.sort();
+            format!("struct{{{}}}", keys.join(","))
+        }
+    }
+}
+
+/// k-th permutation (in the order of Heap-free lexicographic enumeration) of 0..n;
+/// for n > 4 only the n rotations followed by the reversal are offered.
+pub fn permutation(n: usize, k: usize) -> Vec<usize> {
+    let identity: Vec<usize> = (0..n).collect();
+    if n <= 4 {
+        let mut rest = identity;
+        let mut k = k % alternatives(n).max(1);
+        let mut result = Vec::with_capacity(n);
+        for i in (1..=n).rev() {
+            let radix: usize = (1..i).product();
+            result.push(rest.remove(k / radix));
+            k %= radix;
+        }
+        result
+    } else if k < n {
+        (0..n).map(|i| (i + k) % n).collect()
+    } else {
+        identity.into_iter().rev().collect()
+    }
+}
+
+/// Number of orders offered for an instance of n members.
+pub fn alternatives(n: usize) -> usize {
+    if n <= 4 { (1..=n).product() } else { n + 1 }
+}
+
+fn choose(key: (usize, usize), len: usize, keep: impl FnOnce(&mut Oracle)) -> usize {
+    ORACLE.with(|o| {
+        let mut slot = o.borrow_mut();
+        let Some(oracle) = slot.as_mut() else {
+            return 0;
+        };
+        if let Some(choice) = oracle.by_instance.get(&key) {
+            return *choice;
+        }
+        let index = oracle.seen.len();
+        let choice = oracle.choices.get(index).copied().unwrap_or(0) % alternatives(len).max(1);
+        oracle.seen.push(len);
+        oracle.by_instance.insert(key, choice);
+        keep(oracle);
+        choice
+    })
+}
+
+pub(crate) fn ordered_set(set: &Arc<HashSet<Type>>) -> Vec<&Type> {
+    let mut members: Vec<(String, &Type)> = set.iter().map(|t| (canon_key(t), t)).collect();
+    members.sort_by(|a, b| a.0.cmp(&b.0));
+    let len = members.len();
+    if len < 2 {
+        return members.into_iter().map(|(_, t)| t).collect();
+    }
+    let key = (Arc::as_ptr(set) as usize, len);
+    let choice = choose(key, len, |oracle| oracle.keep_sets.push(set.clone()));
+    permutation(len, choice)
+        .into_iter()
+        .map(|i| members[i].1)
+        .collect()
+}
+
+pub(crate) fn ordered_keys(map: &Arc<HashMap<Arc<str>, Type>>) -> Vec<&Arc<str>> {
+    let mut keys: Vec<&Arc<str>> = map.keys().collect();
+    keys.sort();
+    let len = keys.len();
+    if len < 2 {
+        return keys;
+    }
+    let key = (Arc::as_ptr(map) as usize, len);
+    let choice = choose(key, len, |oracle| oracle.keep_maps.push(map.clone()));
+    permutation(len, choice).into_iter().map(|i| keys[i]).collect()
+}
